@@ -512,6 +512,15 @@ impl<'a> GeneratorState<'a> {
             _ => unreachable!(),
         }
 
+        // An immediate operand (a constant, or the address of an array) can't be written to
+        if dasm_operand.starts_with('#') {
+            if let STA | STX | STY | INC | DEC | ASL | LSR | ROL | ROR = mnemonic {
+                return Err(self
+                    .compiler_state
+                    .syntax_error("Can't modify a constant or the address of an array", pos));
+            }
+        }
+
         let mut s = mnemonic.to_string();
         if !dasm_operand.is_empty() {
             s += " ";
